@@ -292,11 +292,11 @@ def write_plain_program(d, main_go, extra=None, roles=ROLES_SHAPES):
 # ---------------------------------------------------------------------------------------------------------------
 # C07: running the analyses
 # ---------------------------------------------------------------------------------------------------------------
-def crashrun(bins, mod, pattern, analyses, out, timeout=120, cfgdir=None, gomaxprocs="2"):
+def crashrun(bins, mod, pattern, analyses, out, timeout=120, cfgdir=None, gomaxprocs="2", walltimeout=1800):
     """returns {"load": rec|None, "runs": {name: rec}, "running": name|None, "rc": int, "stderr": str, "killed": bool}
     `running` = analysis that was started but did not end (fatal error, crash of a worker goroutine, timeout)"""
     cmd = [bins["crashrun"], "-dir", mod, "-pattern", pattern, "-out", out, "-analyses", ",".join(analyses),
-           "-timeout", str(timeout)]
+           "-timeout", str(timeout), "-walltimeout", str(walltimeout)]
     if cfgdir:
         cmd += ["-cfgdir", cfgdir]
     env = vlib.goenv()
@@ -304,12 +304,12 @@ def crashrun(bins, mod, pattern, analyses, out, timeout=120, cfgdir=None, gomaxp
     killed = False
     try:
         q = subprocess.run(cmd, env=env, stdout=subprocess.DEVNULL, stderr=subprocess.PIPE, text=True,
-                           timeout=timeout * (len(analyses) + 2) + 120)
+                           timeout=walltimeout * 2 + 600)
         rc, err = q.returncode, q.stderr
     except subprocess.TimeoutExpired as e:
         rc, err, killed = -9, (e.stderr or b"").decode("utf8", "replace") if isinstance(e.stderr, bytes) else (e.stderr or ""), True
     res = {"load": None, "runs": {}, "running": None, "rc": rc, "stderr": err[-6000:], "killed": killed, "done": False,
-           "timeout": None}
+           "timeout": None, "timeout_stack": "", "timeout_cpu_ms": 0}
     if os.path.exists(out):
         for r in vlib.read_ndjson(out):
             if r["ev"] == "load":
@@ -321,6 +321,8 @@ def crashrun(bins, mod, pattern, analyses, out, timeout=120, cfgdir=None, gomaxp
                 res["running"] = None
             elif r["ev"] == "timeout":
                 res["timeout"] = r["name"]
+                res["timeout_stack"] = r.get("panic", "")
+                res["timeout_cpu_ms"] = r.get("n", 0)
             elif r["ev"] == "done":
                 res["done"] = True
     return res
